@@ -666,7 +666,7 @@ def check_ctor(case):
 FACETS = [
     Facet("same_instant", conv_case, check_same_instant, setup=setup_conv,
           rule="label pair differs or instant within 90 s of 0h UTC",
-          quick=(8, 1200), thorough=(32, 6000)),
+          quick=(8, 800), thorough=(32, 6000)),
     Facet("round_trip_reading", conv_case, check_round_trip, setup=setup_conv,
           rule="label pair differs or instant within 90 s of 0h UTC",
           quick=(4, 1200), thorough=(16, 6000)),
@@ -680,10 +680,10 @@ FACETS = [
           rule="every case (date outside the tables or no database at all)",
           quick=(4, 400), thorough=(8, 2000)),
     Facet("arithmetic", arith_case, check_arith, setup=setup_conv,
-          rule="every case", quick=(8, 800), thorough=(32, 4000)),
+          rule="every case", quick=(8, 600), thorough=(32, 4000)),
     Facet("order_eq_hash", oeh_case, check_oeh, setup=setup_conv,
           rule="labels differ or instant within 90 s of 0h UTC",
-          quick=(8, 1200), thorough=(32, 5000)),
+          quick=(8, 800), thorough=(32, 5000)),
     Facet("daterange_model", range_case, check_range, setup=setup_conv,
           rule="negative step, non-dividing step, mixed labels or instant within 90 s of 0h UTC",
           quick=(8, 500), thorough=(32, 2500)),
